@@ -1,4 +1,4 @@
-(* Object-level model of the Snowflake's random-stream bookkeeping (snowflake.py: seed setter, H_int /
+(* Object-level model of the Snowflake's random-stream bookkeeping (snowflake.py: seed setter, configPath setter, H_int /
    H_shelf getters, _buildHeatflowMatrices, _buildShelfHeatFlow, 'random' recording, run) and of
    Snowfall's repetition loop (snowfall.py).  A generator is identified by (seed, cursor): the stream of
    numpy's default_rng(seed) is a fixed function of the seed, and a cursor counts the variates consumed.
@@ -17,29 +17,34 @@ Record obj := MkObj {
   o_shelf : option gen;       (* where the cached shelf vector was drawn from (None: no random variability) *)
   o_built : bool;             (* H_int / H_ext built *)
   o_N : Z;                    (* number of vials *)
-  o_var : bool                (* s_sigma_rel > 0 on a flat shelf: the shelf vector is random *)
+  o_var : bool;               (* s_sigma_rel > 0 on a flat shelf: the shelf vector is random *)
+  o_stale : bool              (* the configuration was re-declared (configPath setter) since the shelf vector was built: _H_shelf is None *)
 }.
 
 (* _buildShelfHeatFlow *)
 Definition build_shelf (o : obj) : obj :=
   if o_var o
-  then MkObj (o_seed o) (MkGen (g_seed (o_rng o)) (g_cur (o_rng o) + o_N o)) (o_seed o) (Some (o_rng o)) (o_built o) (o_N o) (o_var o)
-  else MkObj (o_seed o) (o_rng o) (o_seed o) None (o_built o) (o_N o) (o_var o).
+  then MkObj (o_seed o) (MkGen (g_seed (o_rng o)) (g_cur (o_rng o) + o_N o)) (o_seed o) (Some (o_rng o)) (o_built o) (o_N o) (o_var o) false
+  else MkObj (o_seed o) (o_rng o) (o_seed o) None (o_built o) (o_N o) (o_var o) false.
 (* H_shelf getter: rebuild only when the seed changed since the last build (the vector exists after construction) *)
-Definition read_hshelf (o : obj) : obj := if o_seed o =? o_seedUsed o then o else build_shelf o.
+Definition read_hshelf (o : obj) : obj := if (o_seed o =? o_seedUsed o) && negb (o_stale o) then o else build_shelf o.
 (* seed setter *)
 Definition set_seed (s : Z) (o : obj) : obj :=
-  read_hshelf (MkObj s (MkGen s 0) (o_seedUsed o) (o_shelf o) (o_built o) (o_N o) (o_var o)).
+  read_hshelf (MkObj s (MkGen s 0) (o_seedUsed o) (o_shelf o) (o_built o) (o_N o) (o_var o) (o_stale o)).
 (* _buildHeatflowMatrices / H_int getter *)
 Definition build_matrices (o : obj) : obj :=
-  build_shelf (MkObj (o_seed o) (o_rng o) (o_seedUsed o) (o_shelf o) true (o_N o) (o_var o)).
+  build_shelf (MkObj (o_seed o) (o_rng o) (o_seedUsed o) (o_shelf o) true (o_N o) (o_var o) (o_stale o)).
 Definition read_hint (o : obj) : obj := if o_built o then o else build_matrices o.
 (* constructor: seed setter on a blank object whose shelf vector does not exist yet *)
 Definition new_obj (seed N : Z) (var : bool) : obj :=
-  build_shelf (MkObj seed (MkGen seed 0) seed None false N var).
+  build_shelf (MkObj seed (MkGen seed 0) seed None false N var false).
 (* a 'random' recording request draws k variates from the object's generator *)
 Definition record_random (k : Z) (o : obj) : obj :=
-  MkObj (o_seed o) (MkGen (g_seed (o_rng o)) (g_cur (o_rng o) + k)) (o_seedUsed o) (o_shelf o) (o_built o) (o_N o) (o_var o).
+  MkObj (o_seed o) (MkGen (g_seed (o_rng o)) (g_cur (o_rng o) + k)) (o_seedUsed o) (o_shelf o) (o_built o) (o_N o) (o_var o) (o_stale o).
+(* configPath setter (as repaired by 3d89d5a): the constants are replaced and the cached matrices and shelf vector are dropped; the batch size and
+   the variability flag (constructor arguments) are not part of the configuration file *)
+Definition set_config (o : obj) : obj :=
+  MkObj (o_seed o) (o_rng o) (o_seedUsed o) (o_shelf o) false (o_N o) (o_var o) true.
 
 (* what a run reads: (shelf provenance, generator position of its first dice value); it then consumes d dice *)
 Definition outcome : Type := option gen * gen.
@@ -47,17 +52,17 @@ Definition outcome : Type := option gen * gen.
 (* run() as repaired: matrices first, then restart the generator from the stored seed and draw the shelf once *)
 Definition run (d : Z) (o : obj) : obj * outcome :=
   let o1 := read_hint o in
-  let o2 := build_shelf (MkObj (o_seed o1) (MkGen (o_seed o1) 0) (o_seedUsed o1) (o_shelf o1) (o_built o1) (o_N o1) (o_var o1)) in
-  (MkObj (o_seed o2) (MkGen (g_seed (o_rng o2)) (g_cur (o_rng o2) + d)) (o_seedUsed o2) (o_shelf o2) (o_built o2) (o_N o2) (o_var o2),
+  let o2 := build_shelf (MkObj (o_seed o1) (MkGen (o_seed o1) 0) (o_seedUsed o1) (o_shelf o1) (o_built o1) (o_N o1) (o_var o1) (o_stale o1)) in
+  (MkObj (o_seed o2) (MkGen (g_seed (o_rng o2)) (g_cur (o_rng o2) + d)) (o_seedUsed o2) (o_shelf o2) (o_built o2) (o_N o2) (o_var o2) (o_stale o2),
    (o_shelf o2, o_rng o2)).
 
 (* run() of the pinned revision: uses the generator and the cached shelf vector as it finds them *)
 Definition run_pinned (d : Z) (o : obj) : obj * outcome :=
   let o2 := read_hshelf (read_hint o) in
-  (MkObj (o_seed o2) (MkGen (g_seed (o_rng o2)) (g_cur (o_rng o2) + d)) (o_seedUsed o2) (o_shelf o2) (o_built o2) (o_N o2) (o_var o2),
+  (MkObj (o_seed o2) (MkGen (g_seed (o_rng o2)) (g_cur (o_rng o2) + d)) (o_seedUsed o2) (o_shelf o2) (o_built o2) (o_N o2) (o_var o2) (o_stale o2),
    (o_shelf o2, o_rng o2)).
 
-Inductive op := SetSeed (s : Z) | ReadHshelf | ReadHint | BuildMatrices | RecordRandom (k : Z) | Run (d : Z).
+Inductive op := SetSeed (s : Z) | ReadHshelf | ReadHint | BuildMatrices | RecordRandom (k : Z) | Run (d : Z) | SetConfig.
 
 Definition apply_op (runf : Z -> obj -> obj * outcome) (o : obj) (p : op) : obj * option outcome :=
   match p with
@@ -67,6 +72,7 @@ Definition apply_op (runf : Z -> obj -> obj * outcome) (o : obj) (p : op) : obj 
   | BuildMatrices => (build_matrices o, None)
   | RecordRandom k => (record_random k o, None)
   | Run d => let '(o', r) := runf d o in (o', Some r)
+  | SetConfig => (set_config o, None)
   end.
 (* the outcomes of all runs of a history, in order *)
 Fixpoint history (runf : Z -> obj -> obj * outcome) (o : obj) (h : list op) : obj * list outcome :=
